@@ -18,9 +18,11 @@ PLAN = dict(
     tiers=dict(
         quick=[det("rel", H, "cs-rel", 16, 400, 4, tso=True, time_cap=45),
                det("dbg", H, "cs-dbg", 16, 120, 4, tso=True, time_cap=40),
+               det("isolated-wait", H, "cs-rel", 8, 120, 6, tso=True, time_cap=25, args=["--isowait"]),
                tsan("C20", 8, 240)],
         thorough=[det("rel", H, "cs-rel", 16, 1500, 5, tso=True, time_cap=230),
                   det("dbg", H, "cs-dbg", 16, 500, 5, tso=True, time_cap=150),
+                  det("isolated-wait", H, "cs-rel", 16, 1500, 8, tso=True, time_cap=90, args=["--isowait"]),
                   det("enum-wake", H, "cs-rel", 16, 30, 2, tso=True, time_cap=70, enum="wake", enum_cap=150),
                   det("enum-rmw", H, "cs-rel", 16, 20, 2, tso=True, time_cap=90, enum="rmw", enum_cap=400),
                tsan("C20", 16, 600)],
